@@ -37,8 +37,7 @@ def provider_Close : List Ev := [
   .nilAssign "p.scopes" ["p.scopesMu"],
   .unlock "p.scopesMu",   -- pTake ]
   .call "s.Close" [],   -- pScopes -> cCas / kCas
-  .call "s.ID" [],
-  .call "p.rootScope.Close" [],   -- pRest …
+  .call "p.rootScope.Close" [],   -- pRest ...
   .lock "p.disposablesMu" [],
   .read "p.disposables" ["p.disposablesMu"],
   .nilAssign "p.disposables" ["p.disposablesMu"],
@@ -137,13 +136,13 @@ def scope_Close : List Ev := [
   .read "s.children" ["s.childrenMu"],
   .nilAssign "s.children" ["s.childrenMu"],
   .unlock "s.childrenMu",   -- cTake ]
-  .call "child.Close" [],   -- cKids -> kCas … (nested Close of each child)
+  .call "child.Close" [],   -- cKids -> kCas ... (nested Close of each child)
   .lock "s.disposablesMu" [],   -- cTakeD [
   .read "s.disposables" ["s.disposablesMu"],
   .nilAssign "s.disposables" ["s.disposablesMu"],
   .unlock "s.disposablesMu",   -- cTakeD ]
   .call "disposables[].Close" [],   -- cDrain (USER Close, reverse order)
-  .lock "s.parentScope.childrenMu" [],   -- kDetP [ (cDetP is skipped for S: parentScope == nil)
+  .lock "s.parentScope.childrenMu" [],   -- kDetP [ (skipped for S: parentScope == nil)
   .delete "s.parentScope.children" ["s.parentScope.childrenMu"],
   .unlock "s.parentScope.childrenMu",   -- kDetP ]
   .lock "s.rootProvider.scopesMu" [],   -- cDetS / kDetS [
@@ -191,8 +190,6 @@ def scope_Get : List Ev := [
 def scope_GetGroup : List Ev := [
   .atomic "LoadInt32" "s.disposed" [],
   .ret [],
-  .call "s.rootProvider.findGroupDescriptors" [],
-  .ret [],
   .call "s.resolve" [],
   .ret []
 ]
@@ -206,16 +203,11 @@ def scope_GetKeyed : List Ev := [
 
 def scope_createInstance : List Ev := [
   .call "s.setInstance" [],
-  .call "invoker.Invoke" [],
-  .call "extractParameterTypes" [],
-  .call "s.setInstance" [],
-  .call "s.rootProvider.findDescriptor" [],
-  .call "regDescriptor.identity" [],
-  .call "s.setInstance" [],
-  .call "s.rootProvider.findDescriptor" [],
+  .call "invoker.Invoke" [],   -- rCtor / tCtor / the initializer (USER), after the parameters were resolved through s.Get
   .call "s.setInstance" [],
   .call "s.setInstance" [],
-  .call "sibling.identity" [],
+  .call "s.setInstance" [],
+  .call "s.setInstance" [],
   .call "s.shareInstance" []
 ]
 
@@ -227,8 +219,6 @@ def scope_getInstance : List Ev := [
 ]
 
 def scope_lockCreation : List Ev := [
-  .call "descriptor.identity" [],
-  .call "descriptor.siblings[].identity" [],
   .lock "s.creatingMu" [],   -- rMu [
   .read "s.creating" ["s.creatingMu"],
   .assign "s.creating" ["s.creatingMu"],
@@ -241,7 +231,6 @@ def scope_lockCreation : List Ev := [
 ]
 
 def scope_resolve : List Ev := [
-  .call "s.rootProvider.findDescriptor" [],
   .call "s.rootProvider.getSingleton" [],   -- gLoad
   .call "s.getInstance" [],   -- rRead
   .call "s.lockCreation" [],   -- rMu, rLock
